@@ -15,7 +15,8 @@ ASSUME_COMMON = [
 PROPS = {}
 
 PROPS["C16"] = dict(
-    units=[dict(name="c16-mpi-shim", src="props/c04.cpp", enum=True, floor_exempt=True, deps=["lib/shim/mpi.h"], flags=["-O2", "-DVERIF_T=double", "-DVERIF_AS=16", "-I", "@HERE@/lib/shim", "-pthread"], libs=["-ldl", "-pthread"], quick=dict(shards=2, cases=250), thorough=dict(shards=4, cases=8000)),
+    units=[dict(name="c16-mpi-shim-float", src="props/c04.cpp", floor_exempt=True, deps=["lib/shim/mpi.h"], flags=["-DVERIF_T=float", "-DVERIF_AS=16", "-I", "@HERE@/lib/shim", "-pthread"], libs=["-ldl", "-pthread"], quick=dict(shards=2, cases=250), thorough=dict(shards=4, cases=8000)),
+           dict(name="c16-mpi-shim", src="props/c04.cpp", enum=True, floor_exempt=True, deps=["lib/shim/mpi.h"], flags=["-O2", "-DVERIF_T=double", "-DVERIF_AS=16", "-I", "@HERE@/lib/shim", "-pthread"], libs=["-ldl", "-pthread"], quick=dict(shards=2, cases=250), thorough=dict(shards=4, cases=8000)),
            dict(name="c16", src="props/c16.cpp", enum=True)],
     rule="case = (total, world) checked for every rank (world <= 2048) or 8 structural + 24 sampled ranks "
          "against a 128-bit integer tiling model; non-trivial: world >= 2 and total mod world != 0; "
@@ -44,7 +45,7 @@ PROPS["C09"] = dict(
     rule="case = numeric type x weight vector (1..64 channels; uniform / ones / dyadic / arbitrary / ratios 10^+-12 / "
          "one positive / increasing; zeros at front, end, middle or by mask; scaled) probed with canonical values "
          "forced through a scripted 64-bit engine: 0, largest below 1, every cumulative boundary +-2 ulp, random "
-         "values, optionally a midpoint lattice of 2^10..2^16 values, real engines, and multi_channel_iteration; "
+         "values, optionally a midpoint lattice of 2^10..2^16 values, real engines, multi_channel_iteration (selected channel valid, enabled and in the enabled list), and the same weights as integers times denorm_min / min (scale invariance); "
          "non-trivial: >= 2 positive weights (boundaries are always probed) ; distinct = distinct type + weight vector "
          "+ lattice size; inner_evaluations counts single selections",
     quick=dict(shards=8, cases=1500),
@@ -89,7 +90,7 @@ PROPS["C08"] = dict(
     rule="3/4 of the cases: chain of 1..30 multi_channel_refine_weights calls (1..40 channels, generated weights incl. "
          "zeros and unnormalised, data all-zero / single / equal / uniform / over +-15 (float) or +-100 decades, beta in "
          "(0,1], minimum weight in [0,1/n)); 1/4: real hep::multi_channel run (1..6 piecewise-constant channels, user "
-         "or default weights, 2..6 iterations of 0..320 calls, integrand zero below a threshold); non-trivial: >= 2 "
+         "or default weights, 2..6 iterations of 0..320 calls, integrand zero below a threshold, optionally +inf / -inf / NaN above another, optionally with a distribution); non-trivial: >= 2 "
          "channels with unequal data and (floor active or disabled channel or chain >= 2), for runs: weights changed "
          "and (disabled channel or floor or an iteration without information); distinct = distinct description",
     quick=dict(shards=8, cases=4000),
@@ -186,7 +187,8 @@ PROPS["C05"] = dict(
 )
 
 PROPS["C15"] = dict(
-    units=[dict(name="c15-float", src="props/c15.cpp", deps=["lib/runners.hpp", "lib/pwc.hpp"], flags=["-DVERIF_T=float"]),
+    units=[dict(name="c15-mpi-shim", src="props/c04.cpp", floor_exempt=True, deps=["lib/shim/mpi.h"], flags=["-DVERIF_T=double", "-DVERIF_AS=15", "-I", "@HERE@/lib/shim", "-pthread"], libs=["-ldl", "-pthread"], quick=dict(shards=2, cases=250), thorough=dict(shards=4, cases=8000)),
+           dict(name="c15-float", src="props/c15.cpp", deps=["lib/runners.hpp", "lib/pwc.hpp"], flags=["-DVERIF_T=float"]),
            dict(name="c15-double", src="props/c15.cpp", deps=["lib/runners.hpp", "lib/pwc.hpp"], flags=["-DVERIF_T=double"]),
            dict(name="c15-ldouble", src="props/c15.cpp", deps=["lib/runners.hpp", "lib/pwc.hpp"], flags=["-DVERIF_T=long double"])],
     rule="case = integrator x one of the nine standard engines x configuration (as C03: distributions, user grids / "
@@ -216,7 +218,7 @@ PROPS["C14"] = dict(
            dict(name="c14", src="props/c14.cpp", deps=["lib/pwc.hpp", "lib/exactsum.hpp"])],
     rule="case = numeric type x N (1..10^5 quick, ..10^7 thorough) x one of 10 value patterns (one large then many "
          "eps/4, alternating with cancellation, geometric decay over 40 binades, random magnitudes over 20 decades with "
-         "random signs, ascending, descending, equal 0.1, zeros with rare large, ...) optionally negated, scaled by "
+         "random signs, ascending, descending, equal 0.1, zeros with rare large, subnormal values, ...) optionally negated, scaled by "
          "10^-10..10^10 x integrator (PLAIN weight 1 / VEGAS uniform or power-law grid / multi-channel PWC) x "
          "distribution (none / 1-d / 2-d, all values into one bin or round robin); non-trivial: N >= 1000 AND the naive "
          "left-to-right sum of the same values (computed by the harness) lies outside the bound, i.e. the case can tell "
@@ -267,7 +269,7 @@ PROPS["C06"] = dict(
     rule="case = numeric type x integrator x 2..5 iterations of 10..2000 calls x integrand family (4) x 0..2 distributions "
          "(1-d, 2-d) x poison set: shape {empty, first call, last call, one in the middle, all, 2 %, probability p} x kind "
          "{mixed, NaN, +inf, -inf} x source {return value, distribution datum (per datum), multi-channel weight: NaN / inf "
-         "jacobian, all densities zero}; paired run zeroes exactly the poisoned data (sane map); non-trivial: an adaptive "
+         "jacobian, all densities zero, NaN / inf density of a disabled channel}; after every iteration also the variance-weighted and the equally weighted combination of the results so far; paired run zeroes exactly the poisoned data (sane map); non-trivial: an adaptive "
          "integrator with an iteration that has both poisoned and finite non-zero evaluations, or a poisoned distribution "
          "datum; distinct = distinct description",
     quick=dict(shards=8, cases=1200),
@@ -342,7 +344,7 @@ PROPS["C12"] = dict(
          "(calls 0..2 or 4..304) x one of three layers: (i) logging callback returning false at invocation 1..n+1 or never, "
          "start checkpoint with 0..2 earlier results; (ii) built-in callback, one of the four modes, target 0, integrand "
          "identically zero / constant / alternating +-1 (exact zero mean) / NaN everywhere / zero-or-inf / ordinary; (iii) "
-         "built-in callback with target 10^-3..1 on ordinary integrands, optionally resumed after 1-2 iterations; non-trivial: "
+         "built-in callback with target 10^-3..1 on ordinary integrands, optionally resumed after 1-2 iterations, magnitudes 10^+-(max_exponent10/4), an integrand vanishing on 90 % of the domain (no information in short iterations), a campaign resumed after 5e9 calls; non-trivial: "
          "(i) stop position strictly between 1 and n, (ii) degenerate integrand with >= 2 iterations, (iii) judged (not "
          "boundary-ambiguous) with >= 2 iterations; distinct = distinct description; the MPI forms are exercised in C04",
     quick=dict(shards=8, cases=1500),
@@ -366,7 +368,7 @@ PROPS["C17"] = dict(
     rule="case = numeric type x integrator x 0..60 calls x behaviour pattern per call (constant, zero, alternating, zero but "
          "asks for the weight, projector on some calls, NaN / zero / inf, negative with weight requests) x with / without "
          "distribution x engine: scripted 64-bit engine whose canonical numbers are 0, the largest value below 1, the raw "
-         "output that rounds to 1, or generated - or mt19937; PLAIN / VEGAS: 1-4 dims, uniform or power grid; multi-channel: "
+         "output that rounds to 1, or generated - or mt19937; PLAIN / VEGAS: 1-4 dims, uniform or power grid, optionally with zero-width or one-ulp-wide bins; multi-channel: "
          "1-6 PWC channels, weights incl. zeros, densities early or late, padded coordinate buffer; non-trivial: "
          "multi-channel with a disabled channel and both zero and non-zero integrand values, or an extreme canonical "
          "number; distinct = distinct description",
@@ -470,7 +472,7 @@ PROPS["C18"] = dict(
          "iterations x optionally a checkpoint file left by an earlier run that is resumed; a counting pass records every "
          "tracked file-system call of the writing callback, then EVERY position is a crash point (child SIGKILLed on entry), "
          "write/writev positions additionally after 0, 1, half, all-1 bytes (thorough: every prefix for checkpoints <= 4 kB, "
-         "64 sampled prefixes otherwise), plus a non-fatal short write at every write; inner_evaluations = crash / fault "
+         "64 sampled prefixes otherwise), plus a non-fatal short write at every write, plus a write error (EIO once / ENOSPC until the callback returns / half the bytes then ENOSPC) at every write, followed by a kill after that callback or by nothing; file names with and without extension, hidden, ending in .tmp or ~; inner_evaluations = crash / fault "
          "experiments; non-trivial: a crash while a complete checkpoint was on disk; distinct = distinct workload description",
     quick=dict(shards=8, cases=20),
     thorough=dict(shards=16, cases=300),
@@ -500,7 +502,7 @@ PROPS["C04"] = dict(
          "order per collective as a permutation folded left-to-right or pairwise as a tree) x integrator (generated "
          "configuration: distributions, user grids / weights incl. disabled channels) x 1..4 iterations with calls from {0, "
          "1, P-1, P, P+1, primes, multiples of P, 0..3000} x engine (mt19937, minstd_rand, ranlux24, synthetic range 2^14, "
-         "independent_bits_engine<7>) x built-in mpi_callback mode (silent / verbose / writing) x target 0 or 10^-2..1; one "
+         "independent_bits_engine<7>) x built-in mpi_callback mode (silent / verbose / writing, 1/6 with an unwritable path) x target 0 or 10^-2..1 x communicator = the world or a slice of a larger world; every case is preceded by a run of other dimensions through the same template instantiations; float: 2^24 + 3 calls enumerated; one "
          "unit per numeric type; non-trivial: P >= 2 and some calls not divisible by P or below P; inner_evaluations = "
          "points compared with the serial run; distinct = distinct description",
     quick=dict(shards=3, cases=300),
